@@ -49,6 +49,15 @@ class Report:
 
         return _B()
 
+    def run_borrowed(self, module, mapping, repo):
+        """Run another property's rules and keep only the instances of the rules in `mapping`, re-labelled as this
+        property's own rule ids. A borrow requested while already borrowing is skipped: shared clauses are one level
+        deep (this also breaks cycles such as C06 <-> C09)."""
+        if self._borrow is not None:
+            return
+        with self.borrow(mapping):
+            module.run(repo, self)
+
     # ---- declaring
     def clause(self, rule, text):
         if self._borrow is None:
